@@ -38,3 +38,18 @@ claim("C20",
       "Which manager wins for a name held by several managers is a run-time search order and is not decided.",
       "call-graph funnel check + abstract interpretation of index helpers against contracts + truthiness/effect rules",
       "DESIGN.md §4 C20")
+claim("C08",
+      "Decides the structural clauses of member==standalone: writer/reader table agreement for every name and key settings can emit (R-TABLE), manager binding on every path with the Hexital-level configuration and per-manager deep copies (R-BIND, R-ALIAS), unconditional propagation of a new manager to all helpers (R-REBIND), ownership of candle data (R-OWN) and the unconditional fan-out of appends. These hold for all indicator sets, forms and schedules because they are facts about tables and code shape.",
+      "Value equality with a standalone twin under all schedules is a comparison of two executions and is not decided.",
+      "table agreement + syntax-directed binding/alias/ownership rules",
+      "DESIGN.md §4 C08")
+claim("C13",
+      "Non-interference follows from name discipline, decided for every shipped class and depth: helper names in the composition closure are extensions of the owner's name (R-NS), formulas write only their own series at the evaluated index (R-WRITE), only the owners write candle data and reading dicts (R-OWN), purge hands the manager only own names and the manager removes exactly those (R-PURGE, R-PURGE-EXACT), Hexital selects by name equality (R-SELECT). The resolver's lookup order is a recorded known finding (adversarial override names).",
+      "Assumes top-level names are distinct and do not equal another indicator's helper name (otherwise known finding R-LOOKUP).",
+      "symbolic evaluation of _initialise (composition graph) + namespace/ownership rules",
+      "DESIGN.md §4 C13")
+claim("C14",
+      "Decides: purge's name set is the transitive closure of helper names, computed statelessly, and the manager removes exactly it; recalculate = purge;calculate; calculate is idempotent (skip-present sweep from a sound resume index); calculate_index normalises negative indices before use and moves the managed helpers' cursor; the candle_manager setter reaches every helper; Hexital operations select by exact name. Convergence after arbitrary operation sequences is not decided.",
+      "Operation-sequence convergence quantifies over run-time histories and is not decided.",
+      "abstract evaluation of the purge name set + syntax-directed normalisation/ordering rules",
+      "DESIGN.md §4 C14")
